@@ -18,6 +18,14 @@ Two further input classes (added after independently seeded changes were missed)
   the charge that simple_collection must add is then computed by a NumPy oracle from the cluster table;
 * the CDM model runs on several detectors *at the same time* in a pool of threads (its kernels are compiled
   ``nogil`` for exactly that use: dask's threaded scheduler); every call is judged on its own detector.
+Round 4:
+* frames handed to the charge bucket / the pixel bucket / written to a QE-map file come in every memory layout a
+  valid float64 array of the right shape can have (C, Fortran = transposed view, reversed strides, window of a larger
+  buffer), and the charge that simple_collection must add is accounted from the *inputs* of the additions (frame or
+  clusters handed over) whenever the history ends with additions -- not from what the bucket filed;
+* QE maps with their own shape (smaller / larger than the detector, per axis) laid on the detector with the
+  documented options ``position`` = (row, column) and ``align``; the efficiency per pixel is computed by a NumPy
+  placement oracle.
 """
 from __future__ import annotations
 
@@ -41,7 +49,10 @@ RULE = ("generated non-negative frames (zero, uniform, saturated, single hot pix
         "species, beta/volume/period/fwc in range, parallel, serial, both, charge injection; persistence 1-5 species "
         "with/without capacities over 1-6 steps of a non-destructive readout) on 1x1..16x16 CCD/CMOS detectors; "
         "charge held as an array or as clusters with a random history of add / look / in-place update / remove "
-        "operations, square and non-square pixels; CDM also on 2-4 detectors of up to 128x128 processed "
+        "operations, square and non-square pixels; frames added to the charge bucket, set on the pixel bucket or stored "
+        "as QE-map file in C / Fortran / reversed / windowed memory layout; QE maps of the detector shape or smaller / "
+        "larger per axis placed by position=(row, column) (on and off the diagonal, rarely starting before the first "
+        "row / column) or by one of the five align keywords; CDM also on 2-4 detectors of up to 128x128 processed "
         "concurrently by a pool of threads (same or different shape and parameter vector, several rounds); "
         "a case is non-trivial when an input frame holds a non-zero pixel; distinct = distinct (shard kind, "
         "detector, frame kinds, parameter vector) signatures")
@@ -58,6 +69,11 @@ ASSUMPTIONS = [
     "charge held as clusters: every cluster lies strictly inside the sensitive area (at least 5 % of a pixel away "
     "from a pixel border) and belongs to the pixel it lies in; the cluster table is read through the public "
     "Charge.frame accessor right before the collection; only electrons are generated",
+    "QE map laid on the detector: position = (row, column) of the detector pixel under the first map pixel, the map "
+    "is cropped at the detector border and pixels outside the map have efficiency zero; with 'align' both readings of "
+    "top / bottom and both roundings of an odd centring offset are accepted",
+    "the charge generated by a sequence of additions to the charge bucket is the per-pixel sum of what the bucket held "
+    "before and of every frame / cluster handed over, whatever the memory layout of the frame",
     "threads: every thread owns its detector (a detector is never shared); a call is judged by the same oracle as a "
     "sequential call (no negative pixel, no more total charge than received)",
     "CDM parameter vectors keep max_electron_volume, full_well_capacity, release times, temperature and effective "
@@ -71,7 +87,9 @@ REQUIRED_COUNTERS = ([f"judged:{m}" for m in MODELS] +
                       "persist_multi_species_steps", "timestep_pairs", "fullwell_idempotence_checks",
                       "conversion_sampled", "conversion_unsampled", "collection_nonempty_pixel",
                       "collection_from_clusters", "collection_after_inplace_update", "collection_after_look_and_update",
-                      "cdm_concurrent_calls", "cdm_concurrent_same_layout"])
+                      "cdm_concurrent_calls", "cdm_concurrent_same_layout",
+                      "collection_of_accounted_additions", "array_added_to_clusters_other_layout",
+                      "clusters_added_to_array", "qe_map_placed_off_diagonal"])
 TIMEOUT = {"quick": 900, "thorough": 3600}
 LEVEL_TEXT = ("Exploration by runtime monitoring: thousands (quick) to tens of thousands (thorough) of invocations of the "
               "real charge-handling model functions on real CCD/CMOS detectors, directly under the clock of a real "
@@ -145,6 +163,42 @@ def orc_cluster_map(shape, pitch_ver, pitch_hor, numbers, ver, hor):
     out = np.zeros(shape)
     np.add.at(out, (rows, cols), numbers)
     return out
+
+
+def orc_place_map(shape, qmap, position, align):
+    """The efficiency seen by each pixel of a detector of `shape` when a map is laid on it: `position` = (row,
+    column) of the detector pixel under the first pixel of the map; the part of the map outside the detector is
+    cropped, the pixels outside the map have efficiency zero.  With `align` the map is pushed into a corner or
+    centred instead; which edge is 'top' and how an odd difference is halved is not stated anywhere, so every
+    reading is returned -> list of candidate efficiency frames."""
+    qmap = np.asarray(qmap, dtype=float)
+    (oy, ox), (ay, ax) = shape, qmap.shape
+    if align is None:
+        offsets = [(int(position[0]), int(position[1]))]
+    else:
+        half = lambda d: sorted({math.floor(d / 2), math.ceil(d / 2)})   # noqa: E731
+        ys = half(oy - ay) if align == "center" else sorted({0, oy - ay})
+        xs = half(ox - ax) if align == "center" else [0] if align.endswith("left") else [ox - ax]
+        offsets = [(y, x) for y in ys for x in xs]
+    out = []
+    for y0, x0 in offsets:
+        eff = np.zeros(shape)
+        ya, yb, xa, xb = max(0, y0), min(oy, y0 + ay), max(0, x0), min(ox, x0 + ax)
+        if ya < yb and xa < xb:
+            eff[ya:yb, xa:xb] = qmap[ya - y0:yb - y0, xa - x0:xb - x0]
+        out.append(eff)
+    return out
+
+
+def orc_conversion_any(charge_before, photons, candidates, sampling, charge_after):
+    """Holds when the conversion is right for one of the admissible readings of the efficiency frame."""
+    first = None
+    for qe in candidates:
+        res = orc_conversion(charge_before, photons, qe, sampling, charge_after)
+        if res is None:
+            return None
+        first = first or res
+    return first
 
 
 def orc_conversion(charge_before, photons, qe, sampling, charge_after):
@@ -293,6 +347,29 @@ def gen_frame(rng, shape, ref, kinds=None):
     return kind, np.ascontiguousarray(a, dtype=float)
 
 
+LAYOUTS = ["C", "C", "F", "F", "reversed", "strided", "strided_F"]
+
+
+def relayout(rng, a):
+    """The same frame (same shape, dtype and values) with another memory layout: what a model gets when its frame
+    was loaded from a Fortran-ordered file, transposed / rotated to the detector orientation or cut out of a larger
+    array.  -> (layout name, array)"""
+    how = rng.choice(LAYOUTS)
+    r, c = a.shape
+    if how == "F":
+        b = np.asfortranarray(a)                       # = a transposed view of the transposed frame
+    elif how == "reversed":
+        b = np.ascontiguousarray(a[::-1, ::-1])[::-1, ::-1]      # negative strides (np.rot90 twice, np.flip)
+    elif how in ("strided", "strided_F"):
+        big = np.full((2 * r + 1, 3 * c + 2), 7.0, order="F" if how == "strided_F" else "C")
+        b = big[1::2, 2::3]
+        b[...] = a                                     # a window of a larger buffer
+    else:
+        b = a
+    assert b.shape == a.shape and b.dtype == a.dtype and np.array_equal(a, b)
+    return how, b
+
+
 def rand_shape(rng, lo=1, hi=8):
     pick = rng.random()
     if pick < 0.12:
@@ -430,6 +507,9 @@ def judge(ctx, model, params, before, after, index, mkcase, where="direct"):
                                                   after["pixel"]), index, mkcase, where)
     if model in ("simple_conversion", "conversion_with_qe_map"):
         rec.count("conversion_sampled" if params["sampling"] else "conversion_unsampled")
+        if params.get("qe_candidates") is not None:      # a map laid on the detector with 'position' / 'align'
+            return verdict(ctx, model, orc_conversion_any(before["charge"], before["photon"], params["qe_candidates"],
+                                                          params["sampling"], after["charge"]), index, mkcase, where)
         return verdict(ctx, model, orc_conversion(before["charge"], before["photon"], params["qe"], params["sampling"],
                                                   after["charge"]), index, mkcase, where)
     if model == "simple_full_well":
@@ -620,17 +700,25 @@ def gen_clusters(rng, shape, pitch, ref, n):
 def cluster_history(ctx, rng, det, shape, pitch, ref, log, looked=False):
     """A random history of public operations on the charge bucket of `det` (the things the charge-generation
     models, the outputs and a recombination step do).  `looked`: the charge map was read since the last addition.
-    -> (looked, clusters were changed in place since the last addition, ... after the map had been read)."""
+    -> (looked, clusters were changed in place since the last addition, ... after the map had been read,
+        account).  `account`: the charge per pixel that the generators have put into the bucket, kept from the
+    *inputs* of the additions (the clusters / the frame handed over) on top of what the bucket held before them;
+    None when the last operation worked on the cluster table itself (then the table is the only statement of the
+    generated charge)."""
     rec = ctx.rec
     ch = det.charge
     updated = looked_then_updated = False
+    account = None
     for _ in range(rng.randint(1, 4)):
         held = clusters_held(det)
+        if account is None:        # what the bucket holds before the next operation (public reads only)
+            account = (np.array(ch.array, dtype=float, copy=True) if held is None
+                       else orc_cluster_map(shape, pitch[0], pitch[1], *held[1:]))
         if held is None:
             op = rng.choice(["add", "add", "add_table", "look"])
         else:
-            op = rng.choice(["add", "add_table", "add_array", "look", "look", "scale_all", "scale_some", "renumber",
-                             "move", "move", "remove", "remove", "remove_all"])
+            op = rng.choice(["add", "add_table", "add_array", "add_array", "look", "look", "scale_all", "scale_some",
+                             "renumber", "move", "move", "remove", "remove", "remove_all"])
         ids = held[0] if held else []
         some = sorted(rng.sample(ids, rng.randint(1, max(1, len(ids) - 1)))) if ids else []
         if op in ("add", "add_table"):
@@ -645,11 +733,22 @@ def cluster_history(ctx, rng, det, shape, pitch, ref, log, looked=False):
                 ch.add_charge_dataframe(ch.create_charges(**kw))
             log.append([f"charge:{op}", {"number": jl(numbers), "ver": jl(ver), "hor": jl(hor)}])
             looked = updated = looked_then_updated = False
+            if account is not None:
+                account = account + orc_cluster_map(shape, pitch[0], pitch[1], numbers, ver, hor)
+                if held is None and account.any():
+                    rec.count("clusters_added_to_array")
         elif op == "add_array":
-            arr = np.floor(gen_frame(rng, shape, ref, ["hot", "sparse", "randint", "uniform", "zero"])[1])
+            fk, arr = gen_frame(rng, shape, ref, ["hot", "sparse", "randint", "uniform", "zero", "random", "ramp"])
+            lay, arr = relayout(rng, np.floor(arr) if rng.random() < 0.7 else arr)
             ch.add_charge_array(arr)
-            log.append([f"charge:{op}", {"array": jl(arr)}])
+            log.append([f"charge:{op}", {"array": jl(arr), "layout": lay, "frame_kind": fk}])
             looked = updated = looked_then_updated = False
+            rec.observe("charge_array_layouts", lay)
+            if account is not None:
+                account = account + arr
+                rec.count("array_added_to_clusters")
+                if not (arr.flags.c_contiguous or np.array_equal(arr, arr.T.reshape(arr.shape))):
+                    rec.count("array_added_to_clusters_other_layout")
         elif op == "look":
             how = rng.choice(["array", "to_xarray"])
             _ = ch.array if how == "array" else ch.to_xarray()
@@ -666,6 +765,7 @@ def cluster_history(ctx, rng, det, shape, pitch, ref, log, looked=False):
                                 else list(target))
             log.append([f"charge:{op}", {"ids": target, "values": values}])
             updated, looked_then_updated = True, looked_then_updated or looked
+            account = None
         elif op == "move":
             quantity = rng.choice(["position_ver", "position_hor"])
             axis = 0 if quantity == "position_ver" else 1
@@ -673,20 +773,23 @@ def cluster_history(ctx, rng, det, shape, pitch, ref, log, looked=False):
             ch.set_frame_values(quantity=quantity, new_value_list=values, id_list=list(some))
             log.append([f"charge:{op}", {"quantity": quantity, "ids": some, "values": values}])
             updated, looked_then_updated = True, looked_then_updated or looked
+            account = None
         elif op == "remove":
             if len(ids) < 2:
                 continue
             ch.remove_from_frame(id_list=list(some))
             log.append([f"charge:{op}", {"ids": some}])
             updated, looked_then_updated = True, looked_then_updated or looked
+            account = None
         else:
             if rng.random() < 0.7:     # rarely: nothing is left in the bucket
                 continue
             ch.remove_from_frame()
             log.append([f"charge:{op}", {}])
             looked = updated = looked_then_updated = False
+            account = None
         rec.observe("charge_bucket_operations", op)
-    return looked, updated, looked_then_updated
+    return looked, updated, looked_then_updated, account
 
 
 # --------------------------------------------------------------------------- shard: simple models
@@ -717,20 +820,44 @@ def case_simple(ctx, rng, i, clusters=0.0):
         nontrivial |= bool(photons.any())
         sampling = rng.random() < 0.55
         if rep == 0 and rng.random() < 0.3:
-            prior = np.floor(gen_frame(rng, shape, 1000.0, ["randint", "uniform", "hot"])[1])
+            lay, prior = relayout(rng, np.floor(gen_frame(rng, shape, 1000.0, ["randint", "uniform", "hot"])[1]))
             frames["prior_charge"] = prior
+            info["calls"].append(["charge:add_array", {"layout": lay}, "prior_charge"])
             det.charge.add_charge_array(prior)
         det.photon.array = photons.copy()
         use_map = rng.random() < 0.3
         if use_map:
             g = np.random.default_rng(rng.getrandbits(63))
-            qmap = rng.choice([g.random(shape), np.round(g.random(shape)), np.full(shape, gen_qe(rng)),
-                               np.where(g.random(shape) < 0.3, 0.0, np.where(g.random(shape) < 0.3, 1.0, g.random(shape)))])
+            # the map has the shape of the detector, or its own shape (smaller / larger, per axis) and is laid on
+            # the detector with the documented options 'position' (row, column of its first pixel) or 'align'
+            placed = rng.random() < 0.6
+            mshape = shape
+            if placed:
+                mshape = tuple(rng.choice([n, n, rng.randint(1, n), rng.randint(1, n), n + rng.randint(1, 3)]) for n in shape)
+            qmap = rng.choice([g.random(mshape), np.round(g.random(mshape)), np.full(mshape, gen_qe(rng)),
+                               np.where(g.random(mshape) < 0.3, 0.0, np.where(g.random(mshape) < 0.3, 1.0, g.random(mshape)))])
+            layout, qmap = relayout(rng, qmap)          # e.g. a file written in Fortran order
             frames[f"qe_map{rep}"] = qmap
             path = os.path.join(rec.tmp, f"qe_{i}_{rep}.npy")
             np.save(path, qmap)
             params = {"qe": qmap, "sampling": sampling}
             kw = {"filename": path, "binomial_sampling": sampling}
+            if placed:
+                position, align = (0, 0), None
+                if rng.random() < 0.25:
+                    align = kw["align"] = rng.choice(["center", "top_left", "top_right", "bottom_left", "bottom_right"])
+                elif rng.random() < 0.9:
+                    # somewhere on the detector; now and then the map starts before the first row / column
+                    position = kw["position"] = tuple(
+                        rng.randint(1 - m, -1) if m > 1 and rng.random() < 0.12 else rng.randrange(n)
+                        for n, m in zip(shape, mshape))
+                params = {"qe": None, "qe_candidates": orc_place_map(shape, qmap, position, align), "sampling": sampling}
+                rec.observe("qe_map_placement", "align:" + align if align else
+                            "position:" + ("default" if "position" not in kw else "diagonal" if position[0] == position[1]
+                                           else "off-diagonal"))
+                if align is None and position[0] != position[1]:
+                    rec.count("qe_map_placed_off_diagonal")
+            rec.observe("qe_map_layouts", layout)
             if rng.random() < 0.5:
                 kw["seed"] = rng.randint(0, 10 ** 6)
             model, fn = "conversion_with_qe_map", ctx.cg.conversion_with_qe_map
@@ -751,15 +878,18 @@ def case_simple(ctx, rng, i, clusters=0.0):
     if rng.random() < 0.6:
         fk, pix = gen_frame(rng, shape, ref)
         frames["pixel_before_collection"] = pix
-        det.pixel.array = pix.copy()
+        lay, det.pixel.array = relayout(rng, pix.copy())
+        info["calls"].append(["pixel:set", {"layout": lay}, fk])
         nontrivial |= bool(pix.any())
     as_clusters = rng.random() < clusters     # the generated charge is held as clusters (with a history) or as an array
     looked = False
     for rep in range(rng.choice([1, 1, 2, 3] if as_clusters else [1, 1, 2])):
         updated = looked_then_updated = False
+        account = None
         if as_clusters:
             try:
-                looked, updated, looked_then_updated = cluster_history(ctx, rng, det, shape, pitch, ref, info["calls"], looked)
+                looked, updated, looked_then_updated, account = cluster_history(ctx, rng, det, shape, pitch, ref,
+                                                                                info["calls"], looked)
             except REFUSALS as exc:       # the bucket refused an operation: whatever it holds now is collected
                 rec.count("refused:charge_bucket_operation")
                 rec.observe("refusal_types", f"charge_bucket:{type(exc).__name__}")
@@ -774,6 +904,11 @@ def case_simple(ctx, rng, i, clusters=0.0):
             if params["held"] is None:
                 rec.count("clusters_outside_frame")      # not generated: left to the array view
             else:
+                if account is not None:
+                    # the generated charge as the generators handed it over (clusters and frames), not as the
+                    # bucket filed it
+                    params["held"] = account
+                    rec.count("collection_of_accounted_additions")
                 if updated:
                     rec.count("collection_after_inplace_update")
                 if looked_then_updated:
